@@ -556,9 +556,10 @@ func (ps *PruningStorer) Remove(key []byte) error {
 	ps.lock.RLock()
 	defer ps.lock.RUnlock()
 	for _, pd := range ps.activePersisters {
-		err = pd.persister.Remove(key)
-		if err == nil {
-			return nil
+		// the key can live in any of the active persisters, so it has to be removed from all of them
+		errRemove := pd.persister.Remove(key)
+		if errRemove != nil && err == nil {
+			err = errRemove
 		}
 	}
 
